@@ -200,7 +200,7 @@ func buildCodec(c FrameCfg, little bool) (dec netty.InboundHandler, enc netty.Ou
 		cd := frame.VarintLengthFieldCodec(c.Max)
 		dec, enc = cd, cd
 	case "delim":
-		cd := frame.DelimiterCodec(c.Max, strings.Repeat("\x00", c.DL-1)+"\x01", c.Strip)
+		cd := frame.DelimiterCodec(c.Max, frameDelim(c.DL), c.Strip)
 		dec, enc = cd, cd
 	case "fixed":
 		cd := frame.FixedLengthCodec(c.N)
@@ -240,6 +240,22 @@ func unpackField(order binary.ByteOrder, w int, b []byte) int {
 		return int(order.Uint32(b))
 	}
 	return int(order.Uint64(b))
+}
+
+// frameDelim: the delimiter of a configuration, made of the bytes 0 and 1 only (bodies use bytes >= 2 except where a
+// proper prefix of the delimiter is planted on purpose). Lengths >= 3 use self-overlapping patterns (a proper prefix
+// that is also a suffix of a longer prefix), the ones an incremental matcher without a correct failure function gets
+// wrong when a body ends in part of the delimiter.
+func frameDelim(dl int) string {
+	switch dl {
+	case 3:
+		return "\x00\x00\x01"
+	case 4:
+		return "\x00\x01\x00\x00"
+	case 5:
+		return "\x00\x00\x01\x00\x01"
+	}
+	return strings.Repeat("\x00", dl-1) + "\x01"
 }
 
 func framePayload(rnd *rand.Rand, n int) []byte {
@@ -341,18 +357,24 @@ func runFrameCase(c *FrameCase) *FrameResult {
 				payload = framePayload(rnd, p)
 			}
 			if pre[i] == nil && cf.Kind == "delim" && cf.DL > 1 && p > 0 && rnd.Intn(2) == 0 {
-				// admitted payloads may contain proper prefixes of the delimiter, also at their very end
+				// admitted payloads may contain proper prefixes of the delimiter, also at their very end; the planted
+				// bytes are kept only if the first occurrence of the delimiter in payload+delimiter is still the real one
+				dlm := []byte(frameDelim(cf.DL))
+				plain := append([]byte(nil), payload...)
 				k := 1 + rnd.Intn(cf.DL-1)
 				if k > p {
 					k = p
 				}
-				for j := 0; j < k; j++ {
-					payload[p-1-j] = 0
-				}
+				copy(payload[p-k:], dlm[:k])
 				for j := 0; j+cf.DL < p-k; j += 1 + rnd.Intn(40) {
-					payload[j] = 0
-					if payload[j+1] == 1 {
-						payload[j+1] = 2
+					m := 1 + rnd.Intn(cf.DL-1)
+					copy(payload[j:j+m], dlm[:m])
+				}
+				if bytes.Index(append(append([]byte(nil), payload...), dlm...), dlm) != p {
+					copy(payload, plain)
+					copy(payload[p-k:], dlm[:k])
+					if bytes.Index(append(append([]byte(nil), payload...), dlm...), dlm) != p {
+						copy(payload, plain)
 					}
 				}
 				if p > k && payload[p-k-1] == 0 && cf.DL == 2 {
